@@ -85,6 +85,83 @@ def judgeRun {α : Type} [DecidableEq α] (v : Visitor α) (log : List (Ev α)) 
     if m.must.isSome then some "consume-not-followed-by-exit"
     else if okRes r m then none else some "result"
 
+/-! ### the tree-aware monitor: completeness of the walk under ANY consume schedule
+
+`Mon` checks nesting only; it cannot see that a node was exited with branches left. `TMon` replays a log against
+the branch tree: every Enter must be the next unvisited branch of the innermost open node, and an Exit is legal
+only when no branch is left or the visitor consumed in the node's Enter or in one of its Visits. A Consume in an
+Exit callback has no effect on anything. So an accepted complete log enters and exits, exactly once and in order,
+every node that is not below a consumed node, whatever the visitor's Consume schedule. -/
+
+/-- an open node and its branches not yet entered; `lbl = none` is the virtual frame holding the root -/
+structure Frame (α : Type) where
+  lbl : Option α
+  rest : List (Tree α)
+
+structure TMon (α : Type) where
+  stack : List (Frame α)      -- innermost first
+  must : Option α
+  stopped : Option Act
+
+def TMon.init {α : Type} (t : Tree α) : TMon α := { stack := [⟨none, [t]⟩], must := none, stopped := none }
+
+def TMon.after {α : Type} (m : TMon α) (a : Act) (l : α) (isExit : Bool) : TMon α :=
+  match a with
+  | .continue => m
+  | .consume => if isExit then m else { m with must := some l }
+  | .done => { m with stopped := some .done }
+  | .error => { m with stopped := some .error }
+
+def TMon.step {α : Type} [DecidableEq α] (m : TMon α) (a : Act) (e : Ev α) : Option (TMon α) :=
+  if m.stopped.isSome then none else
+  match e with
+  | .enter l =>
+    if m.must.isSome then none
+    else match m.stack with
+      | ⟨pl, Tree.node l' ks :: rest⟩ :: fs =>
+        if l' = l then some (TMon.after { m with stack := ⟨some l, ks⟩ :: ⟨pl, rest⟩ :: fs } a l false) else none
+      | _ => none
+  | .visit l =>
+    if m.must.isSome then none
+    else match m.stack with
+      | ⟨some t, _ :: _⟩ :: _ => if t = l then some (m.after a l false) else none
+      | _ => none
+  | .exit l =>
+    match m.stack with
+    | ⟨some t, rest⟩ :: fs =>
+      if t = l ∧ ((rest.isEmpty = true ∧ m.must = none) ∨ m.must = some l) then
+        some (TMon.after { m with stack := fs, must := none } a l true)
+      else none
+    | _ => none
+
+def treplay {α : Type} [DecidableEq α] (v : Visitor α) : List (Ev α) → List (Ev α) → TMon α → Option (TMon α)
+  | _, [], m => some m
+  | seen, e :: es, m =>
+    match m.step (v (seen ++ [e])) e with
+    | none => none
+    | some m' => treplay v (seen ++ [e]) es m'
+
+/-- a walk that returned nil without being cancelled has closed every node and left no branch of the root -/
+def tokRes {α : Type} (r : Result) (m : TMon α) : Prop :=
+  match r with
+  | .ok => (m.stopped = none → m.stack = [⟨none, []⟩]) ∧ m.stopped ≠ some .error
+  | .visitorError => m.stopped = some .error
+  | .cursorError => m.stopped = none
+
+/-- verdict on a complete run against its branch tree: `none` = accepted -/
+def judgeRunT {α : Type} [DecidableEq α] (v : Visitor α) (t : Tree α) (log : List (Ev α)) (r : Result) : Option String :=
+  match treplay v [] log (TMon.init t) with
+  | none => some "tree-protocol"    -- a branch skipped, entered twice or out of order; exit with branches left
+  | some m =>
+    if m.must.isSome then some "consume-not-followed-by-exit"
+    else match r with
+      | .ok => if m.stopped.isNone && !(match m.stack with
+                  | [f] => f.lbl.isNone && f.rest.isEmpty
+                  | _ => false) then some "returned-nil-with-open-nodes"
+               else if m.stopped == some .error then some "result" else none
+      | .visitorError => if m.stopped == some .error then none else some "result"
+      | .cursorError => if m.stopped.isNone then none else some "result"
+
 /-! ### pruning by label (statement of `consume_prunes_exactly_subtree`) -/
 
 /-- the visitor that calls Consume() when it enters a node whose label satisfies `p`, and nothing else -/
